@@ -290,8 +290,16 @@ def main():
         if fstr:
             extra += ["--filter-input-haplotypes", fstr]
         progs_here = programs if tier == "thorough" else ["call-exact", programs[2 * ((len(runs) // 2) % 2)]]
+        # vary what the property quantifies over but the first version held fixed: the --report set (without GP/GL
+        # call-exact takes its streaming path) and the inbreeding coefficient (with F > 0 a zero-prior allele has a
+        # finite Gibbs conditional once a copy of it is in the genotype)
+        ci = len(runs)
+        report = ["AFPRIOR", "AFP", "GP"] if ci % 3 == 0 else ["AFPRIOR", "AFP"]
+        inbred = ["--inbreeding", "0.3"] if (ci // 3) % 2 else []
         for prog in progs_here:
-            argv = ["--bam"] + BAMS + ["--ploidy", str(PLOIDY), "--haplotypes", path, "--report", "AFPRIOR", "AFP", "GP"] + extra
+            argv = ["--bam"] + BAMS + ["--ploidy", str(PLOIDY), "--haplotypes", path, "--report"] + report + extra
+            if prog != "call-pedigree":  # call-pedigree has no --inbreeding option
+                argv += inbred
             if prog != "call-exact":
                 argv += ["--mcmc-steps", "80", "--mcmc-burn", "40", "--mcmc-seed", str(1 + ck.seed)]
             if prog == "call-pedigree":
